@@ -264,6 +264,9 @@ def r16_8(ctx):
 
 
 def run(ctx):
+    ctx.rule("R16.12", "no attribute value without a name: a value collected with no attribute started never reaches the next tag's (xmlns) attribute")
+    from . import tokrules as _tr12
+    ctx.guard("R16.12", "value-without-name", lambda: _tr12.no_value_without_name(ctx, "R16.12", "xml"))
     ctx.rule("R16.11", "the prefixes xml and xmlns are fixed: insert_ns never stores a binding for them")
     ctx.guard("R16.11", "fixed-prefixes", lambda: r16_11(ctx))
     ctx.rule("R16.10", "an attribute is a namespace declaration iff its prefix is xmlns or it is the unprefixed attribute xmlns (all six (prefix, local) points of both filter predicates of process_namespaces, read from the syntax tree); the declaring and the binding pass are complements")
